@@ -121,8 +121,11 @@ def expectations(root):
         if dv is None:
             # existence is all that was asked for: satisfied
             continue
-        if any(dv == v for v in vals) or any(str(dv) in text_forms(v) for v in vals):
+        if any(dv == v for v in vals) or any(str(dv) == str(v) for v in vals):
             continue  # satisfied: must not warn
+        if any(str(dv).lower() == str(v).lower() for v in vals):
+            dontcare.append(("dependency", id(o)))   # e.g. 'true' vs True: which text form counts is not prescribed
+            continue
         if len(sibs) > 1:
             dontcare.append(("dependency", id(o)))
             continue
